@@ -55,6 +55,20 @@ let cmd_ansatz c =
   out "gsa" (s_list (fun n -> s_z (ground_state_ansatz (z_of_hex (Printf.sprintf "%x" n)))) ns);
   out "sr" (s_list (fun n -> s_z (fs_sign_real (nat_of_int n))) ns)
 
+(* greedy <n> {defect}* <k> { <a> <b> }*   (the argument of the pairing, then the pairs captured from the implementation, in order)
+   runs the model of _greedy_plaquette_pairing with the oracles REPLAYING the captured choices
+   (fs_replay_pick / fs_replay_nearest: set.pop yields the captured cur, min yields the captured closest)
+   ->  greedy PAIRS <list of a b> | MINEMPTY | FUEL ; greedy_ok 0/1 (fs_pairing_ok on the model's pairs) *)
+let cmd_greedy c =
+  let defects = next_list c next_nat in
+  let caps = next_list c next_natpair in
+  let pick = fs_replay_pick caps and nearest = fs_replay_nearest caps in
+  (match fs_greedy_run pick nearest defects with
+   | FG_Pairs ps -> out "greedy" ("PAIRS " ^ s_list (fun (a, b) -> s_nat a ^ " " ^ s_nat b) ps)
+   | FG_MinEmptyError -> out "greedy" "MINEMPTY"
+   | FG_OutOfFuel -> out "greedy" "FUEL");
+  out "greedy_ok" (s_bool (fs_pairing_ok defects (greedy_pairing pick nearest defects)))
+
 let () =
   iter_lines (fun line ->
       let c = cursor_of_line line in
@@ -64,6 +78,7 @@ let () =
           | "solve" -> cmd_solve c
           | "ansatz" -> cmd_ansatz c
           | "wf" -> cmd_wf c
+          | "greedy" -> cmd_greedy c
           | _ -> out "error" ("unknown command " ^ cmd))
        with Failure m -> out "error" m);
       print_endline "end")
